@@ -190,6 +190,16 @@ def build():
     # ---- fns.time_step
     C('fns.time_step.interp_array_to_approx_dt', lambda a: time_step.interp_array_to_approx_dt(a, 0.01, 0.004), A())
     C('fns.time_step.interp_array_to_approx_dt', lambda a: time_step.interp_array_to_approx_dt(a, 0.01, 0.03), A(), label='decimate')
+    # the time step held by a 0-d array (np.load(...)['dt']): an argument like any other, never modified
+    D0 = Mk('const', lambda rng: np.array(0.02))
+    T0 = Mk('const', lambda rng: np.array(0.005))
+    C('fns.time_step.interp_array_to_approx_dt', lambda a, d, t: time_step.interp_array_to_approx_dt(a, d, t), A(), D0, T0, label='dt and target held by 0-d arrays')
+    C('fns.time_step.interp_to_approx_dt', lambda a, d, t: (lambda o: (time_step.interp_to_approx_dt(o, t), o.dt, o.npts))(eqsig.AccSignal(a, d)), A(), D0, T0,
+      label='signal built on a 0-d array time step')
+    C('displacements.calc_velo_and_disp_from_accel_arr', lambda a, d: displacements.calc_velo_and_disp_from_accel_arr(a, d), A(), D0, label='dt held by a 0-d array')
+    C('sdof.response_series', lambda a, p, d: sdof.response_series(a, d, p, 0.05), A(), P, D0, label='dt held by a 0-d array')
+    C('single.AccSignal', lambda a, d: (lambda o: (o.s_a, o.velocity, o.dt, o.time[-1], o.s_a))(eqsig.AccSignal(a, d, response_times=np.array([0.02, 0.5]))), A(), D0,
+      label='time step held by a 0-d array, spectra read twice')
     C('fns.time_step.interp_to_approx_dt', lambda s: time_step.interp_to_approx_dt(s, 0.004), S())
     C('fns.time_step.resample_to_approx_dt', lambda s: time_step.resample_to_approx_dt(s, 0.004), S())
     C('fns.time_step.time_series_from_motion', lambda a: time_step.time_series_from_motion(a, 0.01), A())
